@@ -308,6 +308,7 @@ def c03_r2(ctx):
     after_err = d.reach([x for (_, x) in err_edges])
     late_oks = [(bb, idx) for (bb, idx) in oks if bb in after_err]
     if late_oks and not _sticky_marker_guards(d, lp, err_edges, [bb for (bb, idx) in oks]):
+        _drain_shape_gate(d)        # (results gathered first and examined in a later pass: not read)
         ctx.viol((d.id, "hang-up-ignored"), "a receiver whose sender went away without sending (recv returned Err) can still be followed by the Ok return: the rule runs although one of its sources was never finished", rc.where)
 
 
